@@ -1,7 +1,7 @@
 From Coq Require Extraction ExtrOcamlBasic.
-From JC Require Import Base Value TokModel.
+From JC Require Import Base Value TokModel TokSize TokFd.
 Extraction Language OCaml.
 Set Extraction KeepSingleton.
 Extraction "model_tok.ml" errno
   Z.add Z.sub Z.mul Z.div Z.modulo Z.abs Z.opp Z.leb Z.ltb Z.eqb Z.of_nat Z.to_nat Z.of_N Z.to_N
-  tok_new tok_reset set_flags parse_ex parse_ex_cstr depth.
+  tok_new tok_reset set_flags parse_ex parse_ex_cstr depth size_guard_n from_fd_parse.
